@@ -36,7 +36,7 @@ def emit_case(c) -> str:
             if isinstance(v, dict) and "res" in v:
                 return f"(KRes {cnat(v['res'])})"
             if isinstance(v, dict):
-                return "(KList " + clist([kv(x) for x in v["list"]]) + ")"
+                return f"(KList {cbool(bool(v.get('tuple')))} " + clist([kv(x) for x in v["list"]]) + ")"
             return f"(KStr {cstr(canon(v))})"
 
         def kwl(kw):
